@@ -1,7 +1,7 @@
 """C01 — Boolean expressions mean what the Python source means."""
 import sys
 
-from .. import boolq, corpus, frontend, refsem
+from .. import boolq, corpus, corpus2, frontend, refsem
 from ..common import Stats, item_id, main_for, slice_quick
 
 PID = "C01"
@@ -17,7 +17,7 @@ FUNCS = [
 ]
 BOUNDS = {
     "quick": "programs: fixed core + seed-selected slice of the universe, both optimizer profiles; widths <= 4 (unit family), <= 16 input bits; truth_table compared for <= 8 input bits; every argument value symbolic",
-    "thorough": "whole universe: unit ops widths {2,3,4,5,6,8}^2 (+ (8,12),(12,16)), bool families (nary, or-of-ands, 600 random depth 3/4), control-flow family, reject family, frozen repo test programs; both profiles",
+    "thorough": "whole universe: unit ops widths {2,3,4,5,6,8}^2 (+ (8,12),(12,16)), bool families (nary, or-of-ands, 600 random depth 3/4), control-flow family, 600 + 1500 typed random multi-statement programs (prog-rand, prog2: containers, variable indices, lookup tables, builtins, tuple locals, unpacking, nested if/else, loops), reject family, frozen repo test programs; both profiles",
 }
 OUTSIDE = "program text is enumerated, not symbolic; hybrid Q.* gates; Qfixed with non-dyadic constants; programs RefSem cannot read are counted ('ref-unsupported'), not judged"
 ASSUMPTIONS = [
@@ -34,8 +34,9 @@ def make_items(tier, seed):
     rej = corpus.u_reject()
     unit_q = corpus.u_unit(widths=(2, 3, 4))
     prand = corpus.u_prog_random(600 if tier == "thorough" else 300)
-    core_progs = small[:40] + ctl + rej + unit_q[:: max(1, len(unit_q) // 150)] + prand[:80]
-    rest_progs = corpus.u_stale() + prand[80:] + small[40:] + unit_q + corpus.u_bool_multistmt() + corpus.u_bool_random(300) + corpus.u_bool_or_of_ands()[::9] + corpus.u_repo_frozen()
+    p2 = corpus2.u_prog2(1500 if tier == "thorough" else 500)
+    core_progs = small[:40] + ctl + rej + unit_q[:: max(1, len(unit_q) // 150)] + prand[:80] + p2[:100]
+    rest_progs = p2[100:] + corpus.u_stale() + prand[80:] + small[40:] + unit_q + corpus.u_bool_multistmt() + corpus.u_bool_random(300) + corpus.u_bool_or_of_ands()[::9] + corpus.u_repo_frozen()
     if tier == "thorough":
         wide = corpus.u_unit(widths=(5, 6, 8), consts=(0, 1, 3, 6, 10, 12, 14, 15, 200, 255)) + corpus.u_unit_pairs([(2, 8), (8, 2), (4, 8), (8, 4), (8, 12), (12, 8), (12, 16), (16, 12), (16, 16), (3, 6), (6, 3)])
         # symbolic-by-symbolic products and powers above 4 bits make sympy (not the solver) run for
